@@ -25,7 +25,7 @@ import struct
 
 from vf.harness import Harness
 from vf.explore import Inconclusive
-from vf.env.c06_env import (LockTable, MemCF, MemDevice, Net, EnvFailure, conc, exc_names, PORT_MEM, CH_READ, CH_WRITE,
+from vf.env.c06_env import (LockTable, MemCF, MemDevice, Net, EnvFailure, conc, exc_names, PORT_MEM, CH_READ, CH_WRITE, MAX_WRITE_DATA,
                             MAX_READ_REPLY_DATA)
 from cflib.crazyflie.mem import Memory, MemoryElement
 from cflib.crazyflie.mem.memory_tester import MemoryTester
@@ -611,6 +611,58 @@ def h_mixed(sym):
     run(w, body)
 
 
+def h_write_steps(sym):
+    """One acknowledgement of a write from an ARBITRARY progress state (inductive step; covers every write length, also the
+    multi-kilobyte deck firmware writes that the end-to-end harnesses cannot reach): total length, address, size of the
+    acknowledged chunk and the progress reported so far are symbolic; the number of bytes still to hand to the link is a
+    solver-chosen case; with and without a progress callback."""
+    from cflib.crazyflie.mem import _WriteRequest
+    mem_id = 3
+    rests = sym.B['rest']
+    rest = rests[sym.choice('rest_idx', len(rests))]
+    total = sym.int('total', 0, 2 ** 32)
+    last = sym.int('acked_chunk', 0, 25)
+    addr = sym.int('addr', 0, 2 ** 32 - 1)
+    prev = sym.int('progress_so_far', -1, 100)
+    delta = sym.int('foreign_delta', 1, 2 ** 32 - 1)
+    has_cb = True if sym.bool('progress_cb') else False
+    sym.assume(last + rest <= total)
+    sym.assume(last >= 1 or total == 0)
+    sym.assume(addr + last + rest <= 2 ** 32)
+    # representation invariant: the percentage reported so far is at most that of the bytes acknowledged before this chunk
+    sym.assume(prev == -1 or prev * total <= 100 * (total - rest - last))
+    sym.apply_known()
+    cf = MemCF()
+    el = MemoryElement(id=mem_id, type=MemoryElement.TYPE_APP, size=0, mem_handler=None)
+    data = [pattern(3 * j + 1) for j in range(rest)]
+    reports = []
+    req = _WriteRequest(el, addr, list(data), cf, progress_cb=(lambda text, pct: reports.append(pct)) if has_cb else None)
+    req._write_len, req._bytes_left, req._current_addr, req._addr_add, req._progress = total, rest, addr, last, prev
+    # an acknowledgement for another address changes nothing
+    r0 = req.write_done((addr + delta) % 2 ** 32)
+    assert not r0 and cf.sent == [] and reports == [], 'acknowledgement with a foreign address was not ignored'
+    r = req.write_done(addr)
+    if rest == 0:
+        assert r is True, 'last acknowledgement does not complete the write'
+        assert cf.sent == [], 'request sent after the last acknowledgement'
+        sym.goal('completed')
+    else:
+        assert not r, 'write reported complete although bytes are left'
+        assert len(cf.sent) == 1, 'acknowledgement of a chunk was not followed by exactly one request for the next chunk'
+        pk = cf.sent[0]
+        n = min(rest, MAX_WRITE_DATA)
+        assert pk.header == (PORT_MEM << 4 | 0x0c | CH_WRITE) and len(pk.data) == 5 + n and len(pk.data) <= 30
+        i, a = struct.unpack('<BI', bytes(pk.data[:5]))
+        assert i == mem_id and a == addr + last, 'next chunk does not continue where the acknowledged one ended'
+        assert list(pk.data[5:]) == data[:n]
+        sym.goal('continued')
+    assert len(reports) <= 1 and all(0 <= p <= 100 and p >= prev for p in reports), 'progress report out of range or going backwards'
+    if reports:
+        sym.goal('progress-reported')
+    elif has_cb and rest:
+        sym.goal('continued-without-new-progress')
+
+
 def h_long(sym):
     """Long transfers (beyond the enumerated lengths): symbolic address, concrete content."""
     lens = sym.B['lengths']
@@ -661,9 +713,17 @@ def h_tester(sym):
     writes it; one byte of the image is corrupted at a solver-chosen offset."""
     maxlen = sym.B['maxlen']
     L = sym.choice('size', maxlen + 1)
-    start = sym.int('start', 0, 2 ** 32 - 64)
-    corrupt = sym.int('corrupt_at', -1, maxlen - 1)      # -1: image is intact
-    delta = sym.int('corrupt_by', 1, 255)
+    if sym.B.get('low_bytes'):
+        # the low address byte (phase of the 0..255 test pattern) is a solver-chosen concrete case, the upper 24 bits are symbolic
+        lows = sym.B['low_bytes']
+        start = 256 * sym.int('start_page', 0, 2 ** 24 - 2) + lows[sym.choice('start_low_idx', len(lows))]
+    else:
+        start = sym.int('start', 0, 2 ** 32 - 64)
+    if sym.B.get('no_corruption'):
+        corrupt, delta = -1, 1
+    else:
+        corrupt = sym.int('corrupt_at', -1, maxlen - 1)      # -1: image is intact
+        delta = sym.int('corrupt_by', 1, 255)
     sym.assume(corrupt < L)
     sym.apply_known()
     table = LockTable()
@@ -708,7 +768,10 @@ def h_tester(sym):
         sym.goal('intact' if intact else 'corruption-detected')
         if not intact:
             return
-        # write: the device must end up holding the pattern
+        # write: the device must end up holding the pattern (it holds something else before the write)
+        cur = dev.image(1)
+        for j in range(len(cur)):
+            cur[j] = (cur[j] + 0x55) & 0xFF
         done = []
         t.write_data(start, L, lambda m, a: done.append(a))
         pump()
@@ -871,6 +934,9 @@ _ERR = dict(err=True, drop=True, follow_len=2)
 HARNESSES = [
     Harness('read_steps', h_read_steps, quick=dict(steps=3), thorough=dict(steps=5), timeout=(300, 900),
             goals=('continued', 'completed', 'completed-after-several')),
+    Harness('write_steps', h_write_steps, quick=dict(rest=[0, 1, 25, 26]), thorough=dict(rest=[0, 1, 24, 25, 26, 51]), timeout=(300, 900),
+            float_model='real', goals=('continued', 'completed', 'progress-reported', 'continued-without-new-progress'),
+            note='percentage arithmetic decided over the reals (int(100*a/b) as the exact floor)'),
     Harness('read_data', h_read_data, quick=dict(maxlen=63), thorough=dict(maxlen=100), timeout=(300, 900),
             goals=('empty-read', 'three-chunks', 'follow-up-served')),
     Harness('read_data[fast answers]', h_read_data, quick=dict(maxlen=25, fast=True), thorough=dict(maxlen=45, fast=True), timeout=(300, 900),
@@ -915,4 +981,8 @@ HARNESSES = [
             note='deck read and deck write under an error status / link drop at every reply, optional failure callbacks present or absent'),
     Harness('tester', h_tester, quick=dict(maxlen=21), thorough=dict(maxlen=30), timeout=(300, 1500),
             goals=('intact', 'corruption-detected')),
+    Harness('tester[pattern wrap]', h_tester, quick=dict(maxlen=21, low_bytes=[0, 0x80, 0xEC, 0xF5, 0xFF], no_corruption=True),
+            thorough=dict(maxlen=30, low_bytes=[0, 1, 0x80, 0xE2, 0xEC, 0xF5, 0xFE, 0xFF], no_corruption=True), timeout=(300, 1500),
+            goals=('intact',),
+            note='ranges that start at a concrete phase of the 0..255 test pattern and run across its wrap-around'),
 ]
